@@ -106,6 +106,18 @@ func CheckEnc(c ECase) *kit.Violation {
 			return kit.Failf("PARSE Accept-Encoding=%q: coding %d parsed as %+v, want {%s %v}", lines, i, specs[i], r.Value(), wq)
 		}
 	}
+	if v := scribbleSpecs("Accept-Encoding", lines, specs); v != nil {
+		return v
+	}
+	var again string
+	if v := kit.Guard("NegotiateContentEncoding", func() {
+		again = middleware.NegotiateContentEncoding(request("Accept-Encoding", lines), append([]string(nil), c.Offers...))
+	}); v != nil {
+		return v
+	}
+	if again != got {
+		return kit.Failf("ENCODING-AFTER-SCRIBBLE %s: after a caller changed the slice ParseAccept had returned for this header, the selection is %q, before it was %q", desc(), again, got)
+	}
 	return nil
 }
 
